@@ -72,8 +72,12 @@
     each of the three calls, `allow_empty`, `allow_missing` of join and filter, output attributes, prefixes — is
     arbitrary.
 
-  NOT COVERED: PositionFilter / SuffixFilter as first stage under EDIT_DISTANCE (`C04.tables_safe_position_ed` is not
-  proved: the table-level position scan is proved for duplicate-free token lists only); float edit-distance
+  PositionFilter / SuffixFilter as first stage under EDIT_DISTANCE: NOT in this file (`FirstStageED` has the two
+  constructors `size`, `prefix`), but PROVED in the companion SSJ/Props/C07_ed.lean (`pipeline_ed_position`,
+  `pipeline_ed_suffix`, and `pipeline_ed_filter` for any of the four filters) from `C04.tables_safe_position_ed`
+  (SSJ/Props/C04_ed.lean) and `C04.tables_safe_suffix_ed` (SSJ/Props/C04_suffix.lean).
+
+  NOT COVERED: float edit-distance
   thresholds; rows for missing join values (C08) and the non-key, non-score columns (C09/C11) — for these the pipeline
   and the join agree by those properties separately; both-empty pairs (C09: the join lists them iff `allow_empty`,
   the pipeline iff the filter lists them, with score 1.0 = exact-match shortcut); straddling pairs.
